@@ -654,3 +654,172 @@ func TestVerifC08Backfill(t *testing.T) {
 		}
 	}
 }
+
+// ---- (d) a document arrives while the channel's cache is being created by the first request for that channel
+// (between the request's look-up of the channel's query handler and the insertion of the new cache)
+
+type c08dCase struct {
+	N     int  `json:"n"`     // documents 1..N exist before the first request
+	Extra int  `json:"extra"` // documents arriving during the creation
+	Limit int  `json:"limit"`
+	Star  bool `json:"star"` // the client has the wildcard channel instead of the named one
+}
+
+func c08dRun(t *testing.T, r *vreport.Report, c c08dCase) {
+	cacheOpts := DefaultCacheOptions()
+	cacheOpts.CachePendingSeqMaxWait = 5 * time.Millisecond
+	database, ctx := setupTestDBWithCacheOptions(t, cacheOpts)
+	defer database.Close(ctx)
+	a := database.Authenticator(ctx)
+	chans := channels.BaseSetOf(t, "ABC")
+	if c.Star {
+		chans = channels.BaseSetOf(t, "*")
+	}
+	user, err := a.NewUser("naomi", "letmein", chans)
+	if err == nil {
+		err = a.Save(user)
+	}
+	if err != nil {
+		t.Fatalf("user: %v", err)
+	}
+	coll := GetSingleDatabaseCollection(t, database.DatabaseContext)
+	ucoll, ctx := GetSingleDatabaseCollectionWithUser(ctx, t, database)
+	ucoll.user, _ = a.GetUser("naomi")
+	impl, ok := database.changeCache.channelCache.(*channelCacheImpl)
+	if !ok {
+		t.Fatalf("unexpected channel cache type %T", database.changeCache.channelCache)
+	}
+	wrapper := &c08bCache{ChannelCache: database.changeCache.channelCache}
+	w := &c08bWorld{t: t, db: database, ctx: ctx, coll: coll, ucoll: ucoll, cache: wrapper, got: map[uint64]int{}}
+	tctx, cancel := context.WithCancel(base.TestCtx(t))
+	defer cancel()
+	for s := 1; s <= c.N; s++ {
+		WriteDirect(t, coll, []string{"ABC"}, uint64(s))
+	}
+	if err := w.waitHigh(uint64(c.N)); err != nil {
+		r.Cap("a cache-creation scenario was abandoned: first wave")
+		return
+	}
+	orig := impl.queryHandlerFactory
+	fired := false
+	total := c.N
+	impl.queryHandlerFactory = func(collectionID uint32) (ChannelQueryHandler, error) {
+		h, herr := orig(collectionID)
+		if !fired {
+			fired = true
+			for k := 0; k < c.Extra; k++ {
+				total++
+				WriteDirect(t, coll, []string{"ABC"}, uint64(total))
+			}
+			// wait for the feed to process them; if the code serialises this against the creation, give up waiting
+			deadline := time.Now().Add(3 * time.Second)
+			for impl.GetHighCacheSequence() < uint64(total) && time.Now().Before(deadline) {
+				time.Sleep(time.Millisecond)
+			}
+			if impl.GetHighCacheSequence() < uint64(total) {
+				r.Add("overlaps_serialised_by_the_code", 1)
+			}
+		}
+		return h, herr
+	}
+	defer func() { impl.queryHandlerFactory = orig }()
+	poll := func(label string) (int, error) {
+		opts := ChangesOptions{Since: w.since, ChangesCtx: tctx, Limit: c.Limit}
+		feed, err := w.ucoll.MultiChangesFeed(w.ctx, base.SetOf("*"), opts)
+		if err != nil {
+			return 0, err
+		}
+		n := 0
+		last := w.since
+		var seqs []string
+		for en := range feed {
+			if en == nil {
+				continue
+			}
+			if en.Err != nil {
+				return n, en.Err
+			}
+			last = en.Seq
+			if strings.HasPrefix(en.ID, "_user/") {
+				continue
+			}
+			w.got[en.Seq.Seq]++
+			seqs = append(seqs, en.Seq.String())
+			n++
+		}
+		tok, perr := ParsePlainSequenceID(last.String())
+		if perr != nil {
+			return n, perr
+		}
+		w.log = append(w.log, fmt.Sprintf("%s since=%s -> [%s] last_seq=%s", label, w.since.String(), strings.Join(seqs, " "), last.String()))
+		w.since = tok
+		return n, nil
+	}
+	if _, err := poll("first-request-for-the-channel"); err != nil {
+		r.Violate("C08/client/poll-failed", err.Error(), c)
+		return
+	}
+	if err := w.waitHigh(uint64(total)); err != nil {
+		r.Cap("a cache-creation scenario was abandoned: extra documents")
+		return
+	}
+	total++
+	WriteDirect(t, coll, []string{"ABC"}, uint64(total))
+	if err := w.waitHigh(uint64(total)); err != nil {
+		r.Cap("a cache-creation scenario was abandoned: final document")
+		return
+	}
+	empty := 0
+	for k := 0; k < 10 && empty < 2; k++ {
+		n, err := poll(fmt.Sprintf("poll-%d", k))
+		if err != nil {
+			r.Violate("C08/client/poll-failed", err.Error(), c)
+			return
+		}
+		if n == 0 {
+			empty++
+		}
+	}
+	var missing []string
+	for s := 1; s <= total; s++ {
+		if w.got[uint64(s)] == 0 {
+			missing = append(missing, fmt.Sprint(s))
+		}
+	}
+	if len(missing) > 0 {
+		r.Violate("C08/client/missed-sequences/arrival-during-channel-cache-creation", fmt.Sprintf("sequence(s) %s, which arrived while the first request for the channel was creating the channel's cache, were never sent to the client; %+v; client log: %s", strings.Join(missing, ","), c, strings.Join(w.log, " | ")), c)
+	} else {
+		r.Distinct("client_outcomes", fmt.Sprintf("creation %+v|%d responses", c, len(w.log)))
+	}
+}
+
+func TestVerifC08CacheCreation(t *testing.T) {
+	r := vreport.Begin("C08")
+	defer r.Finish(t)
+	r.Rule("(d) documents 1..N of channel ABC exist; the first request for the channel (limit 0 / 1, named or wildcard channel) creates the channel's cache; 1..2 further documents of the channel arrive between that request's look-up of the channel's query handler and the insertion of the new cache; one more document later; the client polls until it is handed nothing twice and must have been sent every document; non-trivial = distinct case")
+	r.Assume("as part b; the arrival is placed at the query-handler look-up of addChannelCache (the seam the channel cache offers)")
+	var rc c08dCase
+	if r.Replaying(&rc) {
+		c08dRun(t, r, rc)
+		return
+	}
+	idx := 0
+	for _, n := range []int{1, 2, 3} {
+		for _, extra := range []int{1, 2} {
+			for _, limit := range []int{0, 1} {
+				for _, star := range []bool{false, true} {
+					idx++
+					if !r.Mine(idx) || r.Expired() {
+						continue
+					}
+					c := c08dCase{N: n, Extra: extra, Limit: limit, Star: star}
+					c08dRun(t, r, c)
+					r.Add("evaluations", 1)
+					r.Add("cache_creation_scenarios", 1)
+					r.Add("distinct_nontrivial", 1)
+					r.Sample(c)
+				}
+			}
+		}
+	}
+}
